@@ -184,13 +184,15 @@ def build(flavour="asan", quiet=False):
     return out
 
 
-def _prune(keep, maxkeep=3):
-    """Disk is limited: keep only the newest few tree builds."""
+def _prune(keep, maxkeep=4, min_age_s=3600):
+    """Disk is limited: keep only the newest few tree builds (never one used within the last hour: another check
+    process may be running from it)."""
     b = os.path.join(VERIF, "build")
     ds = [d for d in os.listdir(b) if os.path.isdir(os.path.join(b, d))]
     ds.sort(key=lambda d: os.path.getmtime(os.path.join(b, d)), reverse=True)
+    now = time.time()
     for d in ds[maxkeep:]:
-        if d != keep:
+        if d != keep and now - os.path.getmtime(os.path.join(b, d)) > min_age_s:
             shutil.rmtree(os.path.join(b, d), ignore_errors=True)
 
 
